@@ -959,7 +959,7 @@ func init() {
 	core.Register(&core.Check{
 		ID:       "C11",
 		Level:    "model_checking",
-		Rule:     "explicit-state search over one real map value: universe of 7 mixed-type keys x values {0,1}; operations literal construction (every ordered selection of <=3 keys, sorted/reverse for larger subsets, duplicate keys), Set, Delete, Append (empty, singletons, a 5-pair and a 2-pair map), Rest, Range(l,r) for all l<=r; BFS with merging on key = sorted contents + concrete Go type of the value; plus all source-level histories (m[k]=v, del, +, rest, slices, literals) up to depth 3/4 on a session variable. A second family explores every history of <=3 operations from the large literals WITHOUT merging (storage sharing between a map and the maps derived from it is not in the state key) and re-checks every earlier value of the history after each non-mutating operation; a third merges maps of sizes {0..100}^2 whose common keys are equal but not identical (1 / 1.0, 0 / -0.0); a fourth universe has keys nesting a large array inside small ones. On every state: Len, Get for every key, Inspect, First/Rest iteration, Elements, equality with freshly built maps, inequality with one-pair neighbours, persistence of non-mutating operations; through source: len, println, lookup, for-iteration, first/rest walk, ==, keys(). Non-trivial = history of at least one operation.",
+		Rule:     "explicit-state search over one real map value: universe of 7 mixed-type keys x values {0,1}; operations literal construction (every ordered selection of <=3 keys, sorted/reverse for larger subsets, duplicate keys), Set, Delete, Append (empty, singletons, a 5-pair and a 2-pair map), Rest, Range(l,r) for all l<=r; BFS with merging on key = sorted contents + concrete Go type of the value; plus all source-level histories (m[k]=v, del, +, rest, slices, literals) up to depth 3/4 on a session variable. A second family explores every history of <=3 operations from the large literals WITHOUT merging (storage sharing between a map and the maps derived from it is not in the state key) and re-checks every earlier value of the history after each non-mutating operation; a third merges maps of sizes {0..100}^2 whose common keys are equal but not identical (1 / 1.0, 0 / -0.0); a fourth universe has keys nesting a large array inside small ones. On every state: Len, Get for every key, Inspect, First/Rest iteration, Elements, equality with freshly built maps, inequality with one-pair neighbours, persistence of non-mutating operations; through source: len, println, lookup, for-iteration, first/rest walk, ==, keys(). Non-trivial = history of at least one operation. Source operations include keys given through outer variables, parameters and closures that change afterwards; universe u5 holds keys that are equal for the map but not the same value (1 / 1.0, 0 / 0.0 / -0.0).",
 		Assume:   []string{"merged states have equal futures: operations read only contents and representation, both in the key", "value universe {0,1,7,8,9}"},
 		QuickCap: 100 * time.Second, ThoroughCap: 15 * time.Minute,
 		Run: runC11,
